@@ -33,7 +33,9 @@ RULE = (
     "the bootstrap magnitude or absolute), a constructed termination pattern (mixed 86 %, none, all), gamma in "
     "{0, 0.5, 0.9, 0.99, 1} or (0,1), parameter scale 0.05..30 and the extras of each loss (alpha, min_priority, "
     "clip range, reward scales, horizon, loss weights, environment_terminates, normalize_targets, the encoder's "
-    "encoder_activation_in_last_layer with and without normalize_targets). Twin critics "
+    "encoder_activation_in_last_layer with and without normalize_targets; in ~23 % of the encoder-loss cases the "
+    "reward-logit columns of the model head are multiplied by 30, 100 or 1000 so that the softmax probability of a "
+    "target bin is not representable in float32 while the documented cross-entropy is finite). Twin critics "
     "are centred so that each is the minimum in some row; Huber deltas and clip bounds are placed at the median "
     "/ quartiles of the data (times 1, 0.7, 1.5, 1e-3, 1e3). Non-trivial = batch mixes terminated and "
     "non-terminated rows, the bootstrap term is >= 1% of the target scale and, where the loss has a branch "
@@ -56,7 +58,8 @@ ASSUMPTIONS = [
     "perturbation of all parameters and inputs (rounding amplification of near-constant LayerNorm inputs; largest "
     "movement over 2 random sign patterns, over 8 once the 2-pattern estimate exceeds twice the plain tolerance)",
     "Huber gradients: tolerance widened when delta > 1e3 max|TD error| (the library's form back-propagates "
-    "delta - delta + |e| in float32)",
+    "delta - delta + |e| in float32); plus an absolute 4 ulp32(delta) on the output-bias gradient (relative to "
+    "the leaf's own magnitude for the leaves behind it), the rounding of that form whatever |TD error| is",
     "SAC: the Gaussian policy's log-variance head is scaled so that std is O(1); with std ~ e^-8 the float32 "
     "rounding of (a' - mean)/std makes log pi differ by 1e-3 between two evaluation orders",
 ]
@@ -452,6 +455,19 @@ def _huber_slack(delta, errors):
     return max(1.0, 1e-3 * float(delta) / max(_mag(errors), 1e-30))
 
 
+def _huber_ulp_allowance(g_ref, delta):
+    """Per-leaf absolute allowance for the float32 backward pass of the Huber form 0.5 q^2 + d (|e| - q),
+    q = min(|e|, d) (the library's and optax.huber_loss'): dL/dQ_i is accumulated as d c - d c + q c, an absolute
+    error of up to ulp32(d) in dL/dQ_i *whatever |e| is* (_huber_slack only covers d >> max|e|; witness
+    replays/regress/C03_td3_lap_falsealarm_huber_delta_ulp.json: d = 1000, |e| 0.03..10, output-bias gradient
+    0.03064 vs 0.03044).  The output-layer bias gradient is sum_i dL/dQ_i: allow 4 ulp32(d) there and the same
+    relative to the leaf's own magnitude for the leaves behind it.  ``g_ref``: dict key -> array."""
+    u = 4.0 * float(np.spacing(np.float32(delta)))
+    ob = [_mag(v) for k, v in g_ref.items() if "bias" in k and ("output_layer" in k or np.size(v) == 1)]
+    base = max(ob + [1e-30])
+    return {k: u * max(1.0, _mag(v) / base) for k, v in g_ref.items()}
+
+
 COND_REPS = 8       # perturbation patterns for cases whose two-pattern estimate is above COND_RETRY
 COND_RETRY = 2.0    # in units of the plain tolerance (1e-5 x scale)
 
@@ -534,6 +550,9 @@ def run_engine(S, case):
             ov = ov.reshape(np.shape(rv)) if ov.size == np.size(rv) else ov
         if info.get("skip_value"):
             continue
+        if getattr(S, "finite", False) and np.all(np.isfinite(rv)):
+            check(bool(np.all(np.isfinite(ov))), f"{sub}.nonfinite.{name}",
+                  lambda: f"got {np.asarray(ov).tolist()}, the documented value is finite: {np.asarray(rv).tolist()} n={n}")
         ok = close(ov, rv, scale=scale + extra_tol[name] / 1e-5, rel=2e-4, abs_=1e-5)
         if not ok:
             alt = getattr(S, "classify", None)
@@ -554,7 +573,14 @@ def run_engine(S, case):
         check(bool(np.all(g == 0)), f"{sub}.zero_grad.{name}", lambda: f"max |grad| {_mag(g):.4g}")
     if not info.get("skip_value"):
         g_ref = ns.jit_obj(S.obj)(mods[S.trained], S.consts(info), S.obj_static)
+        if getattr(S, "finite", False) and all(np.all(np.isfinite(v)) for v in ns.leaves(g_ref).values()):
+            nf = [k for k, v in ns.leaves(gm[S.trained]).items() if not np.all(np.isfinite(v))]
+            check(not nf, f"{sub}.nonfinite.grad.trained",
+                  lambda: f"non-finite gradient leaves {nf[:4]}; the gradient of the documented objective is finite")
         extra_g = _grad_conditioning(S, ns, g_ref, grad_reps) if getattr(S, "conditioning", False) else None
+        if info.get("huber_delta") is not None:
+            hu = _huber_ulp_allowance(ns.leaves(g_ref), info["huber_delta"])
+            extra_g = {k: (extra_g or {}).get(k, 0.0) + v for k, v in hu.items()}
         bad, gmax = _compare_grads(ns, sub, "trained", gm[S.trained], g_ref, info.get("grad_slack", 1.0), extra_g)
         if bad:
             altg = getattr(S, "classify_grad", None)
@@ -1135,6 +1161,7 @@ class ContSetup(Setup):
             labels += _branch_labels(e1, e2, "max-td")[1]
             both = both and hb
             info["grad_slack"] = _huber_slack(d, ee)
+            info["huber_delta"] = float(d)
         else:
             ref = {"loss": (np.mean((p1 - y) ** 2) + np.mean((p2 - y) ** 2), scale ** 2),
                    "q_mean": (np.mean(np.minimum(p1, p2)), scale)}
@@ -1485,8 +1512,9 @@ def run_td7(case):
     gmax = max([_mag(v) for v in g_ref.values()] + [1e-30])
     pmax = max(_mag(v) for v in before.values())
     slack = max(_huber_slack(d, ee), 1.0) + 4e-3 * pmax / gmax
+    hu = _huber_ulp_allowance(g_ref, d)  # optax.huber_loss has the same form
     bad = [(k, maxdiff(g_lib[k], g_ref[k])) for k in sorted(g_ref)
-           if not close(g_lib[k], g_ref[k], scale=gmax * slack, rel=2e-4, abs_=1e-4)]
+           if not close(g_lib[k], g_ref[k], scale=gmax * slack + hu[k] / 1e-4, rel=2e-4, abs_=1e-4)]
     check(not bad, f"{sub}.update.critic_step",
           lambda: f"SGD(1.0) step differs from the gradient of the constant-target Huber objective: {bad[:3]} "
                   f"(max |g_ref| {gmax:.4g})")
@@ -1778,6 +1806,9 @@ ENC_EXTRA = [
     {"n": 5, "h": 4, "do": 4, "da": 3, "nb": 17, "zs": 4, "za": 3, "zsa": 5, "hidden": [5, 3]},
 ]
 D2 = "mask_not_per_sample@model_based_encoder_loss"
+RLOGIT_FACTORS = [30.0, 100.0, 1000.0]
+# log of the smallest positive float32 (subnormal; XLA CPU flushes those, i.e. underflow starts at ~ -87.3 already)
+LOG_F32_TINY = float(np.log(2.0 ** -149))
 
 
 def enc_builder(r):
@@ -1796,13 +1827,35 @@ def enc_builder(r):
          "environment_terminates": bool(r.random() < 0.8)}
     if c["dynamics_weight"] == 0.0 and c["reward_weight"] == 0.0:
         c["dynamics_weight"] = 1.0
+    # 'all network parameter values': a confident (and, for some rows, wrong) reward head.  The columns of the
+    # model head that produce the reward logits are multiplied by this factor, so that the softmax probability of
+    # a target bin is far below the smallest float32 (the documented cross-entropy is then ~ the logit gap,
+    # 1e2 .. 1e4, and finite)
+    u, f = r.random(), _choice(r, RLOGIT_FACTORS)
+    c["rlogit_factor"] = f if u < 0.23 else 1.0
     return c
+
+
+def _scale_reward_head(enc, factor):
+    """Multiply the reward-logit columns of the encoder's linear model head (ModelBasedEncoder.model_head: column 0
+    is 'done', the next zs_dim columns the next latent state, the remaining n_bins columns the reward logits)."""
+    if factor == 1.0:
+        return enc
+    k = 1 + int(enc.zs_dim)
+    f = np.float32(factor)
+    ker, bias = np.array(enc.model.kernel.value), np.array(enc.model.bias.value)
+    ker[:, k:] *= f
+    bias[k:] *= f
+    enc.model.kernel.value = L().jnp.asarray(ker)
+    enc.model.bias.value = L().jnp.asarray(bias)
+    return enc
 
 
 class EncoderSetup(Setup):
     name = call = "encoder"
     obj = "enc"
     conditioning = True
+    finite = True      # every output and the trained encoder's gradient are finite whenever the reference is
     zero_mods = ((1, "encoder_target"),)
     zero_arrs = ("next_observation",)
     rel_outputs = ("dynamics_loss", "reward_loss", "done_loss", "reward_mse")
@@ -1835,7 +1888,8 @@ class EncoderSetup(Setup):
     def make_mods(self):
         ns = L()
         cfg, c = self.case["cfg"], self.case
-        return (_encoder(ns, cfg, c, c["pseed"], cfg["nb"]), _encoder(ns, cfg, c, c["pseed"] + 1, cfg["nb"]))
+        enc = _scale_reward_head(_encoder(ns, cfg, c, c["pseed"], cfg["nb"]), float(c.get("rlogit_factor", 1.0)))
+        return (enc, _encoder(ns, cfg, c, c["pseed"] + 1, cfg["nb"]))
 
     def outputs(self, raw):
         return {"loss": raw[0], "dynamics_loss": raw[1][0], "reward_loss": raw[1][1], "done_loss": raw[1][2],
@@ -1877,7 +1931,9 @@ class EncoderSetup(Setup):
             ce = -(th * logp).sum(1)
             dec = (np.exp(logp) * b).sum(1)
             steps.append({"mask": mask.copy(), "dyn_e2": ((z64 - target_zs[:, t]) ** 2).mean(1), "ce": ce,
-                          "done_e2": (d64 - term[:, t]) ** 2, "rmse_e2": (dec - r) ** 2, "twohot": th})
+                          "done_e2": (d64 - term[:, t]) ** 2, "rmse_e2": (dec - r) ** 2, "twohot": th,
+                          # smallest log-probability of a bin that carries two-hot weight, per row
+                          "min_target_logp": np.where(th > 0, logp, 0.0).min(1)})
             mags += [_mag(z64), _mag(d64)]
             mask = mask * (1.0 - term[:, t])
         return steps, target_zs, mags
@@ -1936,6 +1992,13 @@ class EncoderSetup(Setup):
         labels.append("mask-mixed" if mixed else ("mask-all-ones" if not early.any() else "mask-no-full-row"))
         done_active = self.env_term and self.w["done_weight"] > 0
         labels.append("done-term-active" if done_active else "done-term-off")
+        fac = float(self.case.get("rlogit_factor", 1.0))
+        labels.append("reward-head-x%g" % fac if fac != 1.0 else "reward-head-as-drawn")
+        # a target bin of a step that counts (mask 1) whose softmax probability is not representable in float32
+        under = any(bool(np.any((s["min_target_logp"] < LOG_F32_TINY) & (s["mask"] > 0))) for s in steps)
+        labels.append("reward-target-prob-underflows-f32" if under else "reward-target-prob-representable")
+        if under:
+            labels.append("reward-ce-max~1e%d" % int(np.floor(np.log10(max(_mag(s["ce"]) for s in steps)))))
         info = {"steps": steps, "target_zs": target_zs, "alt": alt, "scales": sc, "labels": labels,
                 "nontrivial": mixed, "ignored_rows": np.nonzero(early)[0].tolist()}
         return ref, info
@@ -1998,4 +2061,6 @@ class EncoderSetup(Setup):
 SUBCHECKS.append(SubCheck(
     "encoder", _cases(enc_builder), _runner(EncoderSetup, "encoder"), quick=60, thorough=1500, shards=3,
     shrink=False, suppress_too_slow=True, simplify=_simplify, cost=4.0,
-    rule="some subtrajectory terminates before its last step (masked steps exist) and some does not terminate"))
+    rule="some subtrajectory terminates before its last step (masked steps exist) and some does not terminate "
+         "(labels reward-head-x*, reward-target-prob-underflows-f32: confident-and-wrong reward heads, every "
+         "output and the trained gradient must stay finite and equal to the log-sum-exp reference)"))
